@@ -133,8 +133,8 @@ class Validator(object):
                                             format(el.datatype, el.parent.name, el.name, ref[1])))
 
         def _get_valid_children_info(ref):
-            valid_children = {c[0] for c in ref[1]}
-            children_refs = ref[1]
+            children_refs = ref[1] if len(ref) > 1 else ()  # some withdrawn segments define no field
+            valid_children = {c[0] for c in children_refs}
             return valid_children, children_refs
 
         def _get_child_reference_info(ref):
